@@ -16,6 +16,16 @@ macro "job_side" : tactic => `(tactic| first
       | (intro i; (try simp only [qjobs_setJob, qjobs_setFut, qjobs_setGate, qjobs_setAct, qjobs_setSf, qjobs_setPThr, qjobs_setHolder, qjobs_takeReady,
                              qjobs_dropReady, qjobs_setWoken, qjobs_notify, qjobs_setQState, qjobs_setJobPh]);
            first | done | rfl | (apply qjobs_setQ_keep <;> first | assumption | rfl))
+      | (intro i hi;
+         (try simp only [jobOpen_setQ, jobOpen_setFut, jobOpen_setGate, jobOpen_setAct, jobOpen_setSf, jobOpen_setPThr, jobOpen_setHolder, jobOpen_takeReady,
+                         jobOpen_dropReady, jobOpen_setWoken, jobOpen_notify, jobOpen_setQState, jobOpen_pushBack, jobOpen_pushFront, jobOpen_setJobPh] at hi);
+         exact Or.inl hi)
+      | (intro i; (try simp only [jobOpen_setQ, jobOpen_setFut, jobOpen_setGate, jobOpen_setAct, jobOpen_setSf, jobOpen_setPThr, jobOpen_setHolder, jobOpen_takeReady,
+                         jobOpen_dropReady, jobOpen_setWoken, jobOpen_notify, jobOpen_setQState, jobOpen_pushBack, jobOpen_pushFront, jobOpen_setJobPh]);
+         revert i;
+         first
+         | (apply ho_setJob_keep <;> first | assumption | exact ⟨rfl, rfl⟩)
+         | (apply ho_setJob_held <;> first | assumption | exact ⟨a, _, h.run1 a _ _ (by rw [hpca, ‹act.pc = _›]; rfl)⟩))
       | ((rw [hpca, ‹act.pc = _›]) <;> (simp only [Pc.runningQ, runningQ_ctxPending, Ctx.q]; done))
       | ((rw [hpca, ‹act.pc = _›]) <;> (simp only [Pc.runningQ, runningQ_ctxPending, Ctx.q]; rename_i c _ _; cases c <;> rfl)))
 
@@ -41,8 +51,8 @@ theorem jobInv_stepAct {s s' : State} {a : Nat} {o : Obs} (hh : HolderInv s) (hw
       | exact j_rjDequeue hw h act ha hc _ _ (by assumption) hs0
       | exact j_pdDequeue h act ha hc _ _ (by assumption) hs0
       | exact j_dqDequeue h act ha hc _ _ (by assumption) hs0
-      | exact j_pdRequeue h act ha hc _ _ _ (by assumption) hs0
-      | exact j_dqRequeue h act ha hc _ _ _ _ (by assumption) hs0
+      | exact j_pdRequeue hh hw h act ha hc _ _ _ (by assumption) hs0
+      | exact j_dqRequeue hh hw h act ha hc _ _ _ _ (by assumption) hs0
       | exact j_jobDrop hw h act ha hc _ _ _ (by assumption) hs0
       | exact j_jobDropNotify hw h act ha hc _ _ _ (by assumption) hs0
       | exact j_siIdle h act ha hc _ _ (by assumption) hs0
@@ -61,8 +71,8 @@ theorem jobInv_stepAct {s s' : State} {a : Nat} {o : Obs} (hh : HolderInv s) (hw
   all_goals (try (simp at hs; done))
   all_goals (try (simp only [Option.some.injEq, Prod.mk.injEq] at hs; obtain ⟨rfl, _⟩ := hs))
   all_goals (first
-      | ((refine JobInv.frame h ?_ ?_ ?_ ?_) <;> job_side)
-      | ((refine JobInv.frame_setAct h ?_ ?_ ?_ ?_) <;> job_side)
+      | ((refine JobInv.frame h ?_ ?_ ?_ ?_ ?_) <;> job_side)
+      | ((refine JobInv.frame_setAct h ?_ ?_ ?_ ?_ ?_) <;> job_side)
       | skip)
 
 
